@@ -293,6 +293,67 @@ def owner_reader_program(rng, counters):
     return [keys, tnames], tr, "", False, True
 
 
+def late_reader_program(rng, counters):
+    """Several tasks write members of ONE nested container; some of them are redefined or removed while nothing reads
+    the container yet; only then are readers of the whole container registered, which share inputs with the remaining
+    writers.  Which of two tasks triggered by the same assignment runs first is then decided by the ordering graph
+    alone (it must not be left to the iteration order of a set of refs)."""
+    import xdeps
+    pool = ["k%d" % i for i in range(12)] + ["alpha", "beta", "q.x", "mq1", "z", "y", "long_name_%d" % rng.randrange(100)]
+    keys = rng.sample(pool, 4)
+    names = rng.sample(["s", "p", "w", "sum_%d" % rng.randrange(50), "out", "t%d" % rng.randrange(9), "total", "x1"], 3)
+    srcs = rng.sample(["src", "x", "in_%d" % rng.randrange(30), "a", "knob", "v0"], 2)
+    cname = rng.choice(["d", "box", "elems", "c%d" % rng.randrange(20)])
+    m = xdeps.Manager()
+    fbox = C.FnBox("f")
+    d = {cname: {k: float(i + 1) for i, k in enumerate(keys)}, srcs[0]: 2.0, srcs[1]: -1.0}
+    for t in names:
+        d[t] = 0.0
+    r = m.ref(d, "r")
+    f = m.ref(fbox, "f")
+    box = r[cname]
+    tr = []
+
+    def do(what, fn_):
+        # (an operation that raises is part of the transcript: the same exception is expected in every configuration)
+        try:
+            fn_()
+        except Exception as exc:
+            tr.append(["E", what, type(exc).__name__])
+    writers = [(keys[0], lambda: r[srcs[0]] * 10), (keys[1], lambda: r[srcs[1]] - r[srcs[0]]), (keys[2], lambda: r[srcs[0]] + r[srcs[1]] * 2)]
+    rng.shuffle(writers)
+    for k, mk in writers:
+        do("define", lambda: box.__setitem__(k, mk()))
+    # churn while nobody reads the container or its members
+    for _ in range(rng.randrange(1, 4)):
+        k, mk = rng.choice(writers)
+        how = rng.random()
+        if how < 0.4:
+            v_ = rng.choice([3.0, -2.0, 0.5])
+            do("value", lambda: box.__setitem__(k, v_))          # the definition is replaced by a plain value
+        elif how < 0.8:
+            c_ = rng.choice([0, 1])
+            do("redefine", lambda: box.__setitem__(k, mk() + c_))
+        elif box[k] in m.tasks:
+            do("unregister", lambda: m.unregister(box[k]))
+    readers = [(names[0], lambda: f.tot(box) + r[srcs[0]]), (names[1], lambda: box[keys[3]] + f.tot(box) * r[srcs[1]]),
+               (names[2], lambda: r[names[0]] - box[keys[0]])]
+    rng.shuffle(readers)
+    for nme, mk in readers[:rng.randrange(1, 4)]:
+        do("reader", lambda: r.__setitem__(nme, mk()))
+    for step in range(rng.randrange(3, 7)):
+        which = rng.random()
+        v = rng.choice([5.0, -1.0, 2.5, 0.5, 7.0])
+        if which < 0.7:
+            s_ = rng.choice(srcs)
+            do("assign", lambda: r.__setitem__(s_, v))
+        else:
+            do("assign", lambda: box.__setitem__(keys[3], v))
+        tr.append(sorted((k, canon(x)) for k, x in d.items() if not isinstance(x, (dict, list))) + sorted((k, canon(x)) for k, x in d[cname].items()))
+    tr.append(sorted(map(list, m.dump())))
+    return [keys, names, srcs, cname], tr, "", False, True
+
+
 def run_shard(spec):
     rng = random.Random("C20:%s:corpus" % spec["seed"])      # identical corpus in every configuration
     mgrmon.install_run_events()
@@ -313,7 +374,8 @@ def run_shard(spec):
         n_hist, n_terms, n_fam = 60, 200, 1
     for kind, n, fn in (("history", n_hist, history_program), ("term", n_terms, term_program), ("family", n_fam, family_program),
                         ("exotic-keys", max(20, n_hist // 4), exotic_key_program),
-                        ("owner-readers", max(40, n_hist // 2), owner_reader_program)):
+                        ("owner-readers", max(40, n_hist // 2), owner_reader_program),
+                        ("late-readers", max(60, n_hist // 2), late_reader_program)):
         for i in range(n):
             sub = random.Random("C20:%s:%s:%d" % (spec["seed"], kind, i))     # per-program stream: robust to skips
             res = fn(sub, counters)
